@@ -1,24 +1,24 @@
 import Pysmi.Generated.Skeletons
 /-!
-# Pins (C14): the control skeletons the hand-written models were written against
+# Pins (C14): the control skeletons the hand-written models and oracles were written against
 
-`Generated/Skeletons.lean` is rewritten from the source on every run (calls other than logging and pure builtins, raises with
-their exception class, returns, loops, branches, handlers - in source order).  Each hand-written model follows one of these
-methods; the literal below is the skeleton it was written against.  A structural change of the method breaks its pin - which
-is not by itself a violation: the check then searches model and code for a failing input and reports what it finds.
+`Generated/Skeletons.lean` is rewritten from the source on every run (calls other than logging, string plumbing and pure
+builtins, raises with their exception class, returns, loops, branches, handlers - in source order; for the scripts also the
+exit status of every `sys.exit`).  A structural change of one of these methods breaks its pin - which is not by itself a
+violation: the check then searches model and code for a failing input and reports what it finds.
+(Literals written by harness/tools/repin.py when the models were last brought in line with the source.)
 -/
 namespace Pysmi.Pins.SkelC14
 open Pysmi.Generated.Skeletons
 
 /-- FileReader.getData (pysmi/reader/localfile.py) -/
 theorem pin_fileReaderGet : fileReaderGet = [
-    "loop", "call:self.getSubdirs", "loop", "call:self.getMibVariants", "call:os.path.join", "if",
-    "call:os.path.exists", "call:os.path.isfile", "call:os.stat", "call:time.strftime", "call:time.gmtime",
-    "call:open", "call:fp.read", "call:fp.close", "if", "raise:IOError", "call:IOError", "return:value",
-    "call:MibInfo", "except:(OSError, IOError)", "call:sys.exc_info", "if", "raise:error.PySmiError",
-    "call:error.PySmiError", "call:sys.exc_info", "raise:error.PySmiReaderFileNotModifiedError",
-    "call:error.PySmiReaderFileNotModifiedError", "raise:error.PySmiReaderFileNotFoundError",
-    "call:error.PySmiReaderFileNotFoundError"] := by decide
+    "loop", "call:self.getSubdirs", "loop", "call:self.getMibVariants", "if", "call:os.path.exists",
+    "call:os.path.isfile", "call:os.stat", "call:time.strftime", "call:time.gmtime", "call:open", "call:fp.read",
+    "call:fp.close", "if", "raise:IOError", "call:IOError", "return:value", "call:MibInfo",
+    "except:(OSError, IOError)", "call:sys.exc_info", "if", "raise:error.PySmiError", "call:error.PySmiError",
+    "call:sys.exc_info", "raise:error.PySmiReaderFileNotModifiedError", "call:error.PySmiReaderFileNotModifiedError",
+    "raise:error.PySmiReaderFileNotFoundError", "call:error.PySmiReaderFileNotFoundError"] := by decide
 
 /-- AbstractReader.getMibVariants (pysmi/reader/base.py) -/
 theorem pin_fileReaderVariants : fileReaderVariants = [
